@@ -122,7 +122,8 @@ __CPROVER_ensures(!nv_thrown ==> __CPROVER_return_value == param)
 /* ------------------------------------------------------------------ ::update(name, storage_t&, number | tuple)
  * the std::visit dispatch: the active alternative decides; a parameter of any other kind rejects the assignment.
  * The variant never changes its alternative; records of the other alternatives are framed by the assigns clause. */
-#define NV_ST_WF(s) ((s).index <= 6 && ((s).index != 2 || NV_RANGE_WF((s).a2)) && ((s).index != 3 || NV_RANGE_WF((s).a3)) && \
+/* no bound on index: a valueless variant (any index beyond the last alternative) makes std::visit throw, like a mismatch */
+#define NV_ST_WF(s) ((1) && ((s).index != 2 || NV_RANGE_WF((s).a2)) && ((s).index != 3 || NV_RANGE_WF((s).a3)) && \
                      ((s).index != 4 || NV_PAIR_WF((s).a4)) && ((s).index != 5 || NV_PAIR_WF((s).a5)))
 
 #define NV_POST_ST_SCALAR(s, DEF) \
